@@ -130,6 +130,8 @@ def kappa1d(ctx, rng, idx):
     rname0, k = KAPPAS[(idx // 12) % len(KAPPAS)]
     sign = 1.0 if (idx // (12 * len(KAPPAS))) == 0 else -1.0
     a = sign * float(np.round(rng.uniform(0.3, 3.0), 3))
+    if rng.random() < 0.3:
+        a = sign * float(10 ** rng.uniform(-9, 6))        # any magnitude of the speed (the comparison below is relative to |a|/dx)
     L = float(np.round(rng.uniform(0.5, 4.0), 3))
     num, rname = gen.recon(rname0, rng, k=k)
     x0 = float(rng.choice([0.0, np.round(rng.uniform(-2, 2), 3)]))
